@@ -503,6 +503,10 @@ func (r *renderer) entryText(e *Entry) {
 		r.mark("directive", "directive", "include", "include")
 		r.w(" ")
 		r.mark("includepath", "directive", e.Path, e.Path)
+		if e.Comment != nil {
+			r.w("  ")
+			r.comment(e.Comment, "directive")
+		}
 		r.w(e.Trail)
 		r.nl()
 	case EntryPrice:
